@@ -356,8 +356,10 @@ var (
 //@ func (dec *Decoder) numberStr() (s string, ok bool)
 //@   props C01:post,inv-init,inv-step,pre@call
 //@   ensures ok ==> __digits(s)
+//@   ensures !ok ==> dec.err != nil || !__called("Builder.WriteByte")
 //@   loop 0 locals (sb *strings.Builder)
 //@   loop 0 invariant sb.Len() == 0 || __digits(sb.String())
+//@   loop 0 invariant __called("Builder.WriteByte") ==> sb.Len() > 0
 
 //@ func (dec *Decoder) Number(ptr *uint32) (result bool)
 //@   props C01:post,pre@call
